@@ -79,7 +79,8 @@ fn finish<T: Sc>(v: &Vector<T>, before: &Vec<T>, op: &str, exp: Exp<T>, res: &Re
         (Exp::Reject, Err(_)) => cx.check(same_vec(&v.vec, before), &format!("{}: rejected call modified the vector", op)),
         (Exp::State(s), Ok(_)) => cx.check(same_vec(&v.vec, &s), &format!("{}: result differs from the list model", op)),
         (Exp::Val(x), Ok(got)) => { cx.check(*got == x, &format!("{}: value differs from the list model", op));
-            if op != "pop" { cx.check(same_vec(&v.vec, before), "value-returning op changed the vector"); } }
+            if op != "pop" { cx.check(same_vec(&v.vec, before), "value-returning op changed the vector"); }
+            else { cx.check(before.len() >= 1 && same_vec(&v.vec, &before[..before.len() - 1]), "pop: the vector is not the old one without its last element"); } }
         (_, Err(c)) => cx.fail(format!("{}: panicked ({}) on valid arguments", op, c)),
     }
 }
@@ -200,7 +201,7 @@ fn spaces(t: &mut Toks, cx: &mut Ctx) -> String {
             match r { Ok(x) => {
                 cx.check(x.size() == n, &format!("{}: wrong length", name));
                 cx.check(x[0] == a, &format!("{}: does not start exactly at a", name));
-                cx.check((x[n - 1] - b).abs() <= 4.0 * f64::EPSILON * (a.abs() + b.abs() + (b - a).abs()), &format!("{}: does not end at b within rounding", name));
+                cx.check((x[n - 1] - b).abs() <= 4.0 * f64::EPSILON * (a.abs() + b.abs() + (b - a).abs()) + 4.0 * f64::MIN_POSITIVE, &format!("{}: does not end at b within rounding", name));
                 let mono = (1..n).all(|i| if a < b { x[i] >= x[i - 1] } else if a > b { x[i] <= x[i - 1] } else { x[i] == a });
                 cx.check(mono, &format!("{}: not monotone", name)); }
               Err(c) => cx.fail(format!("{} panicked ({})", name, c)) }
